@@ -964,36 +964,20 @@ def chunksOf (ms : List MEnt) (p : Path) : List Entry :=
   (ms.filter fun m => m.e.type = "chunk" ∧ m.path = p).map (·.e)
 
 /-- every proper, non-empty prefix of the name `p` of entry `i` is either no entry's name, or the
-name of directory entries only, the first of which is placed before `i` -/
-def ancestorOK (ms : List MEnt) (i : Nat) (q : Path) : Prop :=
-  ∀ j (hj : j < ms.length), ms[j].e.type ≠ "chunk" → ms[j].path = q → ms[j].e.type = "dir" ∧
-    ∃ f, ∃ hf : f < ms.length, f < i ∧ ms[f].e.type ≠ "chunk" ∧ ms[f].path = q
-
-instance (ms : List MEnt) (i : Nat) (q : Path) : Decidable (ancestorOK ms i q) := by
-  unfold ancestorOK; infer_instance
-
+name of a directory entry placed before `i` -/
 def ancestorsOK (ms : List MEnt) (i : Nat) (p : Path) : Prop :=
-  ∀ n (_ : n < p.length), 0 < n → ancestorOK ms i (p.take n)
+  ∀ n (_ : n < p.length), 0 < n → ∀ j (hj : j < ms.length), ms[j].e.type ≠ "chunk" →
+    ms[j].path = p.take n → ms[j].e.type = "dir" ∧ j < i
 
 instance (ms : List MEnt) (i : Nat) (p : Path) : Decidable (ancestorsOK ms i p) := by
   unfold ancestorsOK; infer_instance
 
-/-- two entries of the same name are the same entry, or both announce a directory with the same
-attributes (everything `attrFromTOCEntry` reads: mode, owner, times, xattrs, …) -/
-def namesOK (ms : List MEnt) : Prop :=
-  ∀ i (hi : i < ms.length) j (hj : j < ms.length), ms[i].e.type ≠ "chunk" → ms[j].e.type ≠ "chunk" →
-    ms[i].path = ms[j].path →
-      i = j ∨ (ms[i].e.type = "dir" ∧ ms[j].e.type = "dir" ∧ attrOfEntry ms[i].e 0 = attrOfEntry ms[j].e 0)
-
-instance (ms : List MEnt) : Decidable (namesOK ms) := by
-  unfold namesOK; infer_instance
-
-/-- The TOCs on which the two stores are proved to agree.  Everything is decidable.
+/-- The TOCs without repeated names on which the two stores are proved to agree (a sub-fragment
+of `SpecConformingR` below, kept because C02's bridge is stated on it).  Everything is decidable.
   * known entry types only;
   * no entry for the root directory itself, at least one entry;
-  * names (after cleaning: `./`, `../`, `//` spellings are fine) are used once, except that a
-    directory may be announced again, any number of times, by entries with the same attributes;
-  * the first entry of a directory precedes everything below it, any other ancestor is implicit;
+  * names (after cleaning: `./`, `../`, `//` spellings are fine) are used once;
+  * a directory entry precedes everything below it, any other ancestor is implicit;
   * hardlinks point (by any spelling) at an earlier entry that is not a directory — possibly
     itself a hardlink;
   * `chunk` entries directly follow their file, and together with the `reg` entry tile the file;
@@ -1003,7 +987,7 @@ structure SpecConforming (es : List Entry) : Prop where
   types : ∀ i (h : i < es.length), es[i].type ∈ validTypes
   nonEmpty : ∃ i, ∃ h : i < es.length, es[i].type ≠ "chunk"
   noRoot : ∀ i (h : i < (pass1 es).length), (pass1 es)[i].e.type ≠ "chunk" → (pass1 es)[i].path ≠ []
-  names : namesOK (pass1 es)
+  names : (namesOf (pass1 es)).Nodup
   parents : ∀ i (hi : i < (pass1 es).length), (pass1 es)[i].e.type ≠ "chunk" →
     ancestorsOK (pass1 es) i (pass1 es)[i].path
   hardlinks : ∀ i (hi : i < (pass1 es).length), (pass1 es)[i].e.type = "hardlink" →
@@ -1021,9 +1005,79 @@ instance (es : List Entry) : Decidable (SpecConforming es) := by
     ((∀ i (h : i < es.length), es[i].type ∈ validTypes) ∧
      (∃ i, ∃ h : i < es.length, es[i].type ≠ "chunk") ∧
      (∀ i (h : i < (pass1 es).length), (pass1 es)[i].e.type ≠ "chunk" → (pass1 es)[i].path ≠ []) ∧
-     namesOK (pass1 es) ∧
+     (namesOf (pass1 es)).Nodup ∧
      (∀ i (hi : i < (pass1 es).length), (pass1 es)[i].e.type ≠ "chunk" →
         ancestorsOK (pass1 es) i (pass1 es)[i].path) ∧
+     (∀ i (hi : i < (pass1 es).length), (pass1 es)[i].e.type = "hardlink" →
+        ∃ j, ∃ hj : j < (pass1 es).length, j < i ∧ (pass1 es)[j].e.type ≠ "chunk" ∧
+          (pass1 es)[j].path = cleanName (pass1 es)[i].e.linkName ∧ (pass1 es)[j].e.type ≠ "dir") ∧
+     (∀ i (h : i < es.length), es[i].type = "chunk" →
+        ∃ h0 : 0 < i, es[i - 1].type = "reg" ∨ es[i - 1].type = "chunk") ∧
+     (∀ i (hi : i < (pass1 es).length), (pass1 es)[i].e.type = "reg" →
+        fileOK (pass1 es)[i].e (chunksOf (pass1 es) (pass1 es)[i].path) = true) ∧
+     (∀ i (h : i < es.length), es[i].type ≠ "reg" → es[i].type ≠ "chunk" → es[i].offset = 0) ∧
+     (∀ i (h : i < es.length), (es[i].xattrs.map Prod.fst).Nodup))
+    ⟨fun ⟨a, b, c, d, e, f, g, h, i, j⟩ => ⟨a, b, c, d, e, f, g, h, i, j⟩,
+     fun ⟨a, b, c, d, e, f, g, h, i, j⟩ => ⟨a, b, c, d, e, f, g, h, i, j⟩⟩
+
+/-! ### The larger fragment: directories may be announced more than once -/
+
+/-- the name `q` (a proper, non-empty prefix of the name of entry `i`) is either no entry's name,
+or the name of directory entries only, the first of which is placed before `i` -/
+def ancestorOKR (ms : List MEnt) (i : Nat) (q : Path) : Prop :=
+  ∀ j (hj : j < ms.length), ms[j].e.type ≠ "chunk" → ms[j].path = q → ms[j].e.type = "dir" ∧
+    ∃ f, ∃ hf : f < ms.length, f < i ∧ ms[f].e.type ≠ "chunk" ∧ ms[f].path = q
+
+instance (ms : List MEnt) (i : Nat) (q : Path) : Decidable (ancestorOKR ms i q) := by
+  unfold ancestorOKR; infer_instance
+
+def ancestorsOKR (ms : List MEnt) (i : Nat) (p : Path) : Prop :=
+  ∀ n (_ : n < p.length), 0 < n → ancestorOKR ms i (p.take n)
+
+instance (ms : List MEnt) (i : Nat) (p : Path) : Decidable (ancestorsOKR ms i p) := by
+  unfold ancestorsOKR; infer_instance
+
+/-- two entries of the same name are the same entry, or both announce a directory with the same
+attributes (everything `attrFromTOCEntry` reads: mode, owner, times, xattrs, …) -/
+def namesOK (ms : List MEnt) : Prop :=
+  ∀ i (hi : i < ms.length) j (hj : j < ms.length), ms[i].e.type ≠ "chunk" → ms[j].e.type ≠ "chunk" →
+    ms[i].path = ms[j].path →
+      i = j ∨ (ms[i].e.type = "dir" ∧ ms[j].e.type = "dir" ∧ attrOfEntry ms[i].e 0 = attrOfEntry ms[j].e 0)
+
+instance (ms : List MEnt) : Decidable (namesOK ms) := by
+  unfold namesOK; infer_instance
+
+/-- The TOCs on which the two stores are proved to agree.  Everything is decidable.  As
+`SpecConforming`, except that
+  * a name may be used again, any number of times and anywhere after the first use, by entries
+    that all announce a directory with the same attributes (the memory store keeps the last
+    such entry as the node, the db store the node made for the first one);
+  * the FIRST entry of a directory precedes everything below it. -/
+structure SpecConformingR (es : List Entry) : Prop where
+  types : ∀ i (h : i < es.length), es[i].type ∈ validTypes
+  nonEmpty : ∃ i, ∃ h : i < es.length, es[i].type ≠ "chunk"
+  noRoot : ∀ i (h : i < (pass1 es).length), (pass1 es)[i].e.type ≠ "chunk" → (pass1 es)[i].path ≠ []
+  names : namesOK (pass1 es)
+  parents : ∀ i (hi : i < (pass1 es).length), (pass1 es)[i].e.type ≠ "chunk" →
+    ancestorsOKR (pass1 es) i (pass1 es)[i].path
+  hardlinks : ∀ i (hi : i < (pass1 es).length), (pass1 es)[i].e.type = "hardlink" →
+    ∃ j, ∃ hj : j < (pass1 es).length, j < i ∧ (pass1 es)[j].e.type ≠ "chunk" ∧
+      (pass1 es)[j].path = cleanName (pass1 es)[i].e.linkName ∧ (pass1 es)[j].e.type ≠ "dir"
+  chunkAfterData : ∀ i (h : i < es.length), es[i].type = "chunk" →
+    ∃ h0 : 0 < i, es[i - 1].type = "reg" ∨ es[i - 1].type = "chunk"
+  files : ∀ i (hi : i < (pass1 es).length), (pass1 es)[i].e.type = "reg" →
+    fileOK (pass1 es)[i].e (chunksOf (pass1 es) (pass1 es)[i].path) = true
+  noOffset : ∀ i (h : i < es.length), es[i].type ≠ "reg" → es[i].type ≠ "chunk" → es[i].offset = 0
+  xattrs : ∀ i (h : i < es.length), (es[i].xattrs.map Prod.fst).Nodup
+
+instance (es : List Entry) : Decidable (SpecConformingR es) := by
+  exact decidable_of_iff
+    ((∀ i (h : i < es.length), es[i].type ∈ validTypes) ∧
+     (∃ i, ∃ h : i < es.length, es[i].type ≠ "chunk") ∧
+     (∀ i (h : i < (pass1 es).length), (pass1 es)[i].e.type ≠ "chunk" → (pass1 es)[i].path ≠ []) ∧
+     namesOK (pass1 es) ∧
+     (∀ i (hi : i < (pass1 es).length), (pass1 es)[i].e.type ≠ "chunk" →
+        ancestorsOKR (pass1 es) i (pass1 es)[i].path) ∧
      (∀ i (hi : i < (pass1 es).length), (pass1 es)[i].e.type = "hardlink" →
         ∃ j, ∃ hj : j < (pass1 es).length, j < i ∧ (pass1 es)[j].e.type ≠ "chunk" ∧
           (pass1 es)[j].path = cleanName (pass1 es)[i].e.linkName ∧ (pass1 es)[j].e.type ≠ "dir") ∧
